@@ -4,11 +4,12 @@ from vcheck import Case, gz, gzlist, gzmat, gopt, gblist
 
 PROP = "C17"
 LEVEL = "proof"
-GEN_UNITS = ["GenUtils"]
-COQ_TARGETS = ["Props/C17.vo", "Model/Harness.vo"]
-THEOREM_FILES = ["Props/C17.v"]
-COQ_IMPORTS = ("From Coq Require Import List ZArith Bool.\n"
-               "From PV Require Import Np.NpZ Gen.GenUtils Model.Harness Proofs.KhatriRao.\n")
+GEN_UNITS = ["GenUtils", "GenKernels", "GenUtils2", "GenHandles", "GenFgSetup"]
+COQ_TARGETS = ["Props/C17.vo", "Props/C17Fg.vo", "Model/Harness.vo"]
+THEOREM_FILES = ["Props/C17.v", "Props/C17Fg.v"]
+COQ_IMPORTS = ("From Coq Require Import Reals List ZArith Bool.\n"
+               "From PV Require Gen.GenFgSetup.\n"
+               "From PV Require Import Np.NpZ Np.NpZ2 Gen.GenUtils Gen.GenKernels Gen.GenUtils2 Model.Harness Proofs.KhatriRao.\n")
 RULE = ("exhaustive over small shapes/index sets + seeded random stream; a case is non-trivial unless the shape is "
         "1-cell or the request is empty; distinct = distinct (op, arguments)")
 EXPLANATION = ("Theorems are stated over Gen/GenUtils.v, regenerated from pyttb_utils.py on this run; the correspondence "
@@ -95,8 +96,13 @@ def gen_cases(rng, tier):
         if rng.random() < 0.4:       # distinct rows (the well-formed sparse case)
             a = [list(x) for x in dict.fromkeys(map(tuple, a))]
             b = [list(x) for x in dict.fromkeys(map(tuple, b))]
-        for op in ("ismember", "intersect", "setdiff"):
+        for op in ("ismember", "intersect", "setdiff", "union"):
             cases.append(Case(op, {"a": a, "b": b, "k": k}, bool(a) and bool(b)))
+    for _ in range(600 if big else 150):     # union with the second argument in lexicographic row order (the in-repo use)
+        k = rng.randint(1, 3)
+        a = [list(x) for x in dict.fromkeys(tuple(rng.randint(0, 2) for _ in range(k)) for _ in range(rng.randint(0, 5)))]
+        b = [list(x) for x in sorted({tuple(rng.randint(0, 2) for _ in range(k)) for _ in range(rng.randint(0, 6))})]
+        cases.append(Case("union", {"a": a, "b": b, "k": k}, bool(a) and bool(b)))
     # --- Khatri-Rao: tuples of 1..4 matrices with a common column count, both orders; column mismatch (malformed)
     for _ in range(600 if big else 150):
         R = rng.randint(1, 3)
@@ -106,6 +112,49 @@ def gen_cases(rng, tier):
             j = rng.randrange(k)
             mats[j] = [row + [1] for row in mats[j]]       # one matrix with a different column count
         cases.append(Case("khatrirao", {"mats": mats, "reverse": rng.random() < 0.5}, k > 1))
+    for k in range(0, 4):          # no matrices at all; matrices with zero columns (generated model only)
+        for rows in ([1], [2, 3], [1, 2, 2]):
+            mats = [[[] for _ in range(rows[j % len(rows)])] for j in range(k)]
+            cases.append(Case("khatrirao_zero", {"mats": mats, "reverse": bool(k % 2)}, k > 0))
+    # --- min_split (Gen/GenKernels.v): exhaustive over all shapes with <= 5 (6 thorough) modes of sizes 1..3 (1..4 up to
+    #     4 modes), plus empty / zero-size / large random shapes
+    for n in range(0, (7 if big else 6)):
+        for shp in itertools.product(range(1, 4), repeat=n):
+            cases.append(Case("min_split", {"shape": list(shp)}, n >= 2))
+    for n in range(1, 5):
+        for shp in itertools.product(range(0, 5), repeat=n):
+            if 0 in shp or 4 in shp:
+                cases.append(Case("min_split", {"shape": list(shp)}, n >= 2))
+    for _ in range(400 if big else 100):
+        shp = [rng.choice([1, 2, 3, 5, 7, 10, 30, 100]) for _ in range(rng.randint(2, 8))]
+        cases.append(Case("min_split", {"shape": shp}, True))
+    # --- gather_wrap_dims (Gen/GenUtils2.v): N <= 4, every ordered mode subset as rows / columns, every ordered
+    #     partition as (rows, columns), all cyclic options incl. an unrecognised string; ill-formed requests
+    for N in range(1, 5):
+        subs = [list(p) for r in range(0, N + 1) for p in itertools.permutations(range(N), r)]
+        for d in subs:
+            for cy in (None, "fc", "bc", "t", "zz"):
+                cases.append(Case("wrapdims", {"N": N, "rd": d, "cd": None, "cy": cy}, True))
+            for cy in (None, "fc"):
+                cases.append(Case("wrapdims", {"N": N, "rd": None, "cd": d, "cy": cy}, True))
+        for p in itertools.permutations(range(N)):
+            for k in range(0, N + 1):
+                cases.append(Case("wrapdims", {"N": N, "rd": list(p[:k]), "cd": list(p[k:]), "cy": rng.choice([None, "bc", "t"])}, True))
+        for cy in (None, "fc", "bc", "t"):
+            cases.append(Case("wrapdims", {"N": N, "rd": None, "cd": None, "cy": cy}, True))
+    for _ in range(200 if big else 60):      # repeated / out-of-range modes (answered by the code as they come)
+        N = rng.randint(1, 5)
+        d = [rng.randint(0, N + 1) for _ in range(rng.randint(1, 3))]
+        e = rng.choice([None, [rng.randint(0, N) for _ in range(rng.randint(0, 3))]])
+        cases.append(Case("wrapdims", {"N": N, "rd": d, "cd": e, "cy": rng.choice([None, "fc", "bc", "t"])}, True))
+    # --- fg_setup.setup (Gen/GenFgSetup.v): every objective x data kind x extra parameter; accept / reject and bound kind
+    datas = [None, ("dense", [0, 1, 1, 0]), ("dense", [0, 2, 3, 1]), ("dense", [0.5, 1.5, 2, 1]), ("dense", [1, 2, 3, 4]),
+             ("dense", [-1, 2, 1, 1]), ("sparse", [1, 1]), ("sparse", [2, 3]), ("sparse", [0.5, 1]), ("sparse", [-1, 1])]
+    for obj in ("GAUSSIAN", "BERNOULLI_ODDS", "BERNOULLI_LOGIT", "POISSON", "POISSON_LOG", "RAYLEIGH", "GAMMA", "HUBER",
+                "NEGATIVE_BINOMIAL", "BETA"):
+        for d in datas:
+            for p_ in (None, 2):
+                cases.append(Case("fg_setup", {"objective": obj, "data": d, "param": p_}, True))
     # --- Np primitive validation (the translator's whitelist: numpy call -> Np definition)
     for _ in range(600 if big else 150):
         k = rng.randint(1, 3)
@@ -120,6 +169,14 @@ def gen_cases(rng, tier):
         idx = [rng.randrange(n) for _ in range(rng.randint(0, 6))]
         vals = [rng.randint(-9, 9) for _ in idx]
         cases.append(Case("prim_scatter", {"n": n, "idx": idx, "vals": vals}, len(idx) > 1))
+        # second batch (Np/NpZ2.v): np.where(mask), range(a, b, -1), enumerate, the Khatri-Rao reshape idiom
+        mask = [rng.random() < 0.5 for _ in range(rng.randint(0, 7))]
+        cases.append(Case("prim_where1", {"mask": mask}, len(mask) > 1))
+        cases.append(Case("prim_range_down", {"a": rng.randint(-3, 6), "b": rng.randint(-3, 6)}, True))
+        R = rng.randint(1, 3)
+        P = [[rng.randint(-3, 4) for _ in range(R)] for _ in range(rng.randint(1, 4))]
+        M = [[rng.randint(-3, 4) for _ in range(R)] for _ in range(rng.randint(1, 3))]
+        cases.append(Case("prim_kr_step", {"P": P, "M": M, "R": R}, len(P) > 1 and len(M) > 1))
     return cases
 
 
@@ -153,10 +210,34 @@ def run_impl(c):
         if c.op == "setdiff":
             r = U.tt_setdiff_rows(_mat(np, a["a"], a["k"]), _mat(np, a["b"], a["k"]))
             return {"ok": [int(x) for x in np.asarray(r).ravel()]}
-        if c.op == "khatrirao":
+        if c.op == "union":
+            r = U.tt_union_rows(_mat(np, a["a"], a["k"]), _mat(np, a["b"], a["k"]))
+            return {"ok": [[int(x) for x in row] for row in np.asarray(r).reshape((-1, a["k"]))]}
+        if c.op in ("khatrirao", "khatrirao_zero"):
             from pyttb.khatrirao import khatrirao
-            r = khatrirao(*[np.array(m, dtype=float) for m in a["mats"]], reverse=a["reverse"])
+            r = khatrirao(*[np.array(m, dtype=float).reshape((len(m), len(m[0]))) for m in a["mats"]], reverse=a["reverse"])
             return {"ok": [[int(x) for x in row] for row in r]}
+        if c.op == "fg_setup":
+            import pyttb as ttb
+            from pyttb.gcp import fg_setup
+            from pyttb.gcp.handles import Objectives
+            d = a["data"]
+            if d is None:
+                data = None
+            elif d[0] == "dense":
+                data = ttb.tensor(np.array(d[1], dtype=float).reshape((2, 2)))
+            else:
+                data = ttb.sptensor(np.array([[0, 0], [1, 1]]), np.array(d[1], dtype=float).reshape((2, 1)), (2, 2))
+            fh, gh, lb = fg_setup.setup(Objectives[a["objective"]], data, a["param"])
+            return {"ok": {"neginf": bool(lb == -np.inf), "lb": None if lb == -np.inf else float(lb)}}
+        if c.op == "wrapdims":
+            rd = None if a["rd"] is None else np.array(a["rd"], dtype=int)
+            cd = None if a["cd"] is None else np.array(a["cd"], dtype=int)
+            r, cc = U.gather_wrap_dims(a["N"], rd, cd, a["cy"])
+            return {"ok": [[int(x) for x in np.asarray(r).ravel()], [int(x) for x in np.asarray(cc).ravel()]]}
+        if c.op == "min_split":
+            from pyttb.tensor import min_split
+            return {"ok": int(min_split(tuple(a["shape"])))}
         if c.op == "prim_unique_rows":
             u, i = np.unique(_mat(np, a["m"], a["k"]), axis=0, return_index=True)
             return {"ok": [[[int(x) for x in r] for r in u], [int(x) for x in i]]}
@@ -166,6 +247,14 @@ def run_impl(c):
             return {"ok": [int(x) for x in np.setdiff1d(np.array(a["a"], dtype=int), np.array(a["b"], dtype=int))]}
         if c.op == "prim_isin":
             return {"ok": [bool(x) for x in np.isin(np.array(a["a"], dtype=int), np.array(a["b"], dtype=int))]}
+        if c.op == "prim_where1":
+            return {"ok": [int(x) for x in np.arange(len(a["mask"]))[np.where(np.array(a["mask"], dtype=bool))]]}
+        if c.op == "prim_range_down":
+            return {"ok": [i for i in range(a["a"], a["b"], -1)]}
+        if c.op == "prim_kr_step":
+            P, M, R = np.array(a["P"], dtype=int), np.array(a["M"], dtype=int), a["R"]
+            T = np.reshape(M, (-1, 1, R)) * np.reshape(P, (1, -1, R), order="F")
+            return {"ok": [[int(x) for x in row] for row in np.reshape(T, (-1, R), order="F")]}
         if c.op == "prim_scatter":
             r = np.ones(a["n"]) * -1
             if a["idx"]:
@@ -202,10 +291,44 @@ def coq_check(c, o):
     if c.op in ("intersect", "setdiff"):
         exp = "Err" if "exc" in o else f"(Ok {gzlist(o['ok'])})"
         return f"res_eqb vec_eqb (tt_{c.op}_rows {gzmat(a['a'])} {gzmat(a['b'])}) {exp}"
+    if c.op == "union":
+        exp = "Err" if "exc" in o else f"(Ok {gzmat(o['ok'])})"
+        return f"res_eqb mat_eqb (tt_union_rows {gzmat(a['a'])} {gzmat(a['b'])}) {exp}"
     if c.op == "khatrirao":
         ms = "[" + "; ".join(gzmat(m) for m in a["mats"]) + "]"
         exp = "None" if "exc" in o else f"(Some {gzmat(o['ok'])})"
-        return f"opt_eqb mat_eqb (khatrirao Z Z.mul {'true' if a['reverse'] else 'false'} {ms}) {exp}"
+        rexp = "Err" if "exc" in o else f"(Ok {gzmat(o['ok'])})"
+        rv = 'true' if a['reverse'] else 'false'
+        return (f"opt_eqb mat_eqb (khatrirao Z Z.mul {rv} {ms}) {exp} && "
+                f"res_eqb mat_eqb (GenKernels.khatrirao {ms} {rv}) {rexp}")
+    if c.op == "khatrirao_zero":
+        ms = "[" + "; ".join(gzmat(m) for m in a["mats"]) + "]" if a["mats"] else "(@nil (list (list Z)))"
+        rexp = "Err" if "exc" in o else f"(Ok {gzmat(o['ok'])})"
+        return f"res_eqb mat_eqb (GenKernels.khatrirao {ms} {'true' if a['reverse'] else 'false'}) {rexp}"
+    if c.op == "fg_setup":
+        d = a["data"]
+        if d is None:
+            dtxt = "None"
+        else:       # the flags are computed here, independently, from the entry-wise reading in Gen/GenFgSetup.v
+            vals = d[1]
+            binary = all(v == 1 for v in vals) if d[0] == "sparse" else all(v in (0, 1) for v in vals)
+            natural = all(float(v).is_integer() for v in vals)
+            nonneg = all(v > 0 for v in vals)
+            dtxt = ("(Some (GenFgSetup.Build_datachk " + " ".join("true" if b else "false" for b in (binary, natural, nonneg)) + "))")
+        ptxt = "None" if a["param"] is None else f"(Some (IZR {gz(a['param'])}))"
+        call = f"GenFgSetup.setup GenFgSetup.{a['objective']} {dtxt} {ptxt}"
+        if "exc" in o:
+            return f"match {call} with None => true | Some _ => false end"
+        want = "GenFgSetup.NegInf => true | GenFgSetup.Finite _ => false" if o["ok"]["neginf"] else "GenFgSetup.NegInf => false | GenFgSetup.Finite _ => true"
+        return f"match {call} with Some (_, _, lb_) => match lb_ with {want} end | None => false end"
+    if c.op == "wrapdims":
+        cy = {None: "None", "fc": "(Some CycFC)", "bc": "(Some CycBC)", "t": "(Some CycT)"}.get(a["cy"], "(Some CycOther)")
+        exp = "Err" if "exc" in o else f"(Ok ({gzlist(o['ok'][0])}, {gzlist(o['ok'][1])}))"
+        return (f"res_eqb (pair_eqb vec_eqb vec_eqb) (gather_wrap_dims {gz(a['N'])} {gopt(a['rd'], gzlist)} "
+                f"{gopt(a['cd'], gzlist)} {cy}) {exp}")
+    if c.op == "min_split":
+        exp = "Err" if "exc" in o else f"(Ok {gz(o['ok'])})"
+        return f"res_eqb Z.eqb (min_split {gzlist(a['shape'])}) {exp}"
     if c.op.startswith("prim_") and "exc" in o:
         return "false"
     if c.op == "prim_unique_rows":
@@ -216,6 +339,13 @@ def coq_check(c, o):
         return f"vec_eqb (np_setdiff1d {gzlist(a['a'])} {gzlist(a['b'])}) {gzlist(o['ok'])}"
     if c.op == "prim_isin":
         return f"bvec_eqb (np_isin {gzlist(a['a'])} {gzlist(a['b'])}) {gblist(o['ok'])}"
+    if c.op == "prim_where1":
+        return f"vec_eqb (np_where1 {gblist(a['mask'])}) {gzlist(o['ok'])}"
+    if c.op == "prim_range_down":
+        return f"vec_eqb (np_arange_down {gz(a['a'])} {gz(a['b'])}) {gzlist(o['ok'])}"
+    if c.op == "prim_kr_step":
+        return (f"np_reshape_ok {gzmat(a['P'])} {gz(a['R'])} && np_reshape_ok {gzmat(a['M'])} {gz(a['R'])} && "
+                f"mat_eqb (np_reshape_rows (np_kr_step {gzmat(a['P'])} {gzmat(a['M'])}) {gz(a['R'])}) {gzmat(o['ok'])}")
     if c.op == "prim_scatter":
         return f"vec_eqb (np_scatter (np_full {gz(a['n'])} (-1)%Z) {gzlist(a['idx'])} {gzlist(a['vals'])}) {gzlist(o['ok'])}"
     raise ValueError(c.op)
@@ -316,6 +446,92 @@ def oracle(c, o):
         if sorted(map(tuple, rows)) != sorted(map(tuple, want)) or len(rows) != len(want):
             return f"rows selected {rows} are not the set-algebra answer {want}"
         return None
+    if c.op == "fg_setup":
+        # losses that evaluate log(model + EPS) or divide by (model + EPS) are differentiable only for model >= 0
+        need_zero = a["objective"] in ("BERNOULLI_ODDS", "POISSON", "RAYLEIGH", "GAMMA", "NEGATIVE_BINOMIAL", "BETA")
+        needs_param = a["objective"] in ("HUBER", "NEGATIVE_BINOMIAL", "BETA")
+        if "exc" in o:
+            if a["data"] is None and (a["param"] is not None or not needs_param):
+                return f"objective {a['objective']} rejected without data to object to ({o['exc']})"
+            return None
+        if needs_param and a["param"] is None:
+            return f"objective {a['objective']} accepted without its extra parameter"
+        if need_zero and o["ok"]["neginf"]:
+            return f"objective {a['objective']} gets no lower bound although its loss is only defined for model >= 0"
+        if need_zero and o["ok"]["lb"] != 0:
+            return f"objective {a['objective']} gets lower bound {o['ok']['lb']} instead of 0"
+        if not need_zero and not o["ok"]["neginf"]:
+            return f"objective {a['objective']} is given the lower bound {o['ok']['lb']} although it is defined on all reals"
+        return None
+    if c.op == "wrapdims":
+        N, rd, cd, cy = a["N"], a["rd"], a["cd"], a["cy"]
+
+        def modes_ok(d):
+            return len(set(d)) == len(d) and all(0 <= x < N for x in d)
+        if rd is None and cd is None:
+            return None if "exc" in o else "request without rows and columns was answered"
+        if rd is not None and cd is not None:
+            adm = sorted(rd + cd) == list(range(N))
+        else:
+            adm = modes_ok(rd if rd is not None else cd)
+        single = rd is not None and cd is None and len(rd) == 1
+        if single and cy not in (None, "fc", "bc", "t"):
+            return None if "exc" in o else "unrecognised cyclic pattern was answered"
+        if not adm:
+            return None      # ill-formed mode lists: C19 territory
+        if "exc" in o:
+            return f"admissible request rejected ({o['exc']})"
+        r, cc = o["ok"]
+        if sorted(r + cc) != list(range(N)):
+            return f"rows {r} and columns {cc} do not partition the modes 0..{N - 1}"
+        rest = lambda d: [x for x in range(N) if x not in d]
+        if rd is not None and cd is not None:
+            want = (rd, cd)
+        elif rd is None:
+            want = (rest(cd), cd)
+        elif single and cy == "t":
+            want = (rest(rd), rd)
+        elif single and cy == "fc":
+            want = (rd, list(range(rd[0] + 1, N)) + list(range(0, rd[0])))
+        elif single and cy == "bc":
+            want = (rd, list(range(rd[0] - 1, -1, -1)) + list(range(N - 1, rd[0], -1)))
+        else:
+            want = (rd, rest(rd))
+        if (r, cc) != (list(want[0]), list(want[1])):
+            return f"(rdims, cdims) = {(r, cc)} but the documented convention gives {want}"
+        return None
+    if c.op == "min_split":
+        shp = a["shape"]
+        N = len(shp)
+        if N < 2 or any(d <= 0 for d in shp):
+            return None          # the property speaks about N >= 2 modes of positive size
+        if "exc" in o:
+            return f"admissible shape rejected ({o['exc']})"
+        k = o["ok"]
+        if not (0 <= k <= N - 2):
+            return f"split index {k} outside [0, {N - 2}]: a partial Khatri-Rao product would be empty"
+
+        def pr(l):
+            p = 1
+            for d in l:
+                p *= d
+            return p
+        for j in range(1, k + 1):
+            if not pr(shp[:j]) < pr(shp[j + 1:]):
+                return f"mode {j} was moved left although prod(shape[:{j}]) >= prod(shape[{j + 1}:])"
+        if not pr(shp[k + 2:]) <= pr(shp[:k + 1]):
+            return f"scan stopped at {k} although mode {k + 1} would still reduce the footprint"
+        return None
+    if c.op == "union":
+        A, B = a["a"], a["b"]
+        if len({tuple(x) for x in A}) != len(A) or len({tuple(x) for x in B}) != len(B):
+            return None      # repeated rows: outside the well-formed (duplicate-free) contract
+        if "exc" in o:
+            return f"rejected ({o['exc']})"
+        want = [r for r in B if r not in A] + A
+        if o["ok"] != want:
+            return f"union {o['ok']} is not (rows of B not in A, in B's order) + A = {want}"
+        return None
     if c.op == "khatrirao":
         mats = a["mats"][::-1] if a["reverse"] else a["mats"]
         R = len(mats[0][0])
@@ -330,3 +546,29 @@ def oracle(c, o):
             return f"result {o['ok']} is not the column-wise Kronecker product {rows}"
         return None
     return None
+
+
+# ---- known findings -----------------------------------------------------------------------------------------
+
+def _union_witness():
+    """C17-UNION: tt_union_rows with a duplicate-free second argument that is not in lexicographic row order"""
+    import numpy as np
+    import pyttb.pyttb_utils as U
+    A = np.array([[1, 2]])
+    B = np.array([[5, 5], [0, 0], [1, 2]])
+    got = [[int(x) for x in r] for r in U.tt_union_rows(A.copy(), B.copy())]
+    want = [[5, 5], [0, 0], [1, 2]]
+    if got != want:
+        return f"tt_union_rows([[1,2]], [[5,5],[0,0],[1,2]]) = {got}, expected {want}"
+    return None
+
+
+def _union_unsorted_b(c):
+    if c.op != "union":
+        return False
+    b = [tuple(r) for r in c.args["b"]]
+    return b != sorted(set(b))
+
+
+TRIGGERS = {"union_unsorted_b": _union_unsorted_b}
+WITNESSES = {"C17-UNION": _union_witness}
